@@ -26,7 +26,8 @@ TRUSTED = [
 ]
 ASSUMPTIONS = ["pieces reach native_concat as a list or a generator (the two ways NativeTemplate calls it)",
                "template-level cases: valid lexer configuration; expressions are names bound by the render data, {% set %} or a "
-               "macro parameter; a macro call is modelled where its body yields a single non-string value"]
+               "macro parameter; a macro call is modelled where its body yields a single non-string value or a text that Python's "
+               "literal_eval does not accept (confirmed per case); constant output expressions are the 22 of the table"]
 CLAIM = dict(
     category="proof",
     technique="Lean 4 proof that the model of native_concat equals the documented result for every piece list, both call forms "
@@ -44,15 +45,23 @@ CLAIM = dict(
          "every run (data in lexer.ignore_if_empty, the emptiness test in Lexer.tokeniter is made on the value that is "
          "yielded, Parser.subparse skips a data token with an empty value) at least one stage drops an empty data token, and "
          "with the parser's guard it changes no piece; pieces_independent_of_parser_guard — because the lexer stage delivers "
-         "none, the pieces of every source are the same with and without the parser's guard (either guard alone suffices). "
-         "Tie: all "
+         "none, the pieces of every source are the same with and without the parser's guard (either guard alone suffices); "
+         "output_run_pieces — for every run of Output children (constants = template data and compile-time constant "
+         "expressions, runtime expressions) the template model emits one piece per runtime expression and one per maximal "
+         "run of constants, whatever their text, the empty string included: nothing is merged across a runtime expression and "
+         "no group is dropped; two_pieces_never_identity — two or more pieces never come back as the value itself; "
+         "output_groups_never_dropped — READ from compiler.py on every run: visit_Output only appends to its list of groups "
+         "and writes every constant group unconditionally. Tie: all "
          "piece lists of length <3 (quick) / <4 (thorough) over 21 text pieces and 12 values against the real function "
          "(identity checked with `is`), random longer lists, render-modify-render histories, 24 templates x value pairs "
          "through render / render_async / render in an async native environment, native environments with a finalize hook "
          "against a segment-level reference; and generated templates = one carrier (plain {{ x }}, conditional output with "
          "and without else, {% set %} + output, native macro, macro with a conditional body) plus 0-3 pieces of material "
          "that compiles to nothing (comments, empty raw blocks, {% if true %}{% endif %}, dead branches, {% set %}, line "
-         "statements, line comments) with whitespace runs between all tags and '-'/'+'/no sign on every tag side, under 10 "
+         "statements, line comments) and 0-3 compile-time constant output expressions (22: '' literals, ''|upper, '' ~ '', "
+         "'a'[0:0], none|default('', true), []|join, ''|trim, whitespace, 0, '0', '1', 1 + 1, text; their documented text is a "
+         "literal table checked against the string Environment on every run) next to an output expression or anywhere, in the "
+         "same output run or separated by a statement that yields nothing, with whitespace runs between all tags and '-'/'+'/no sign on every tag side, under 10 "
          "lexer configurations (trim_blocks, lstrip_blocks, keep_trailing_newline, line prefixes, ERB/PHP delimiters), with 27 "
          "values (custom objects, Decimal, set(), frozenset, bytes, nan/inf, date, namedtuple, Undefined, range, strings that "
          "look like literals, plain literals): the pieces yielded by the compiled root function must equal the model's piece "
@@ -339,6 +348,19 @@ CARRIERS = {
 }
 
 
+# compile-time constant output expressions: (source, token texts joined = the key the model looks up, documented text).
+# A literal table (the documented value of each expression), checked against the ordinary string Environment on every run.
+CONSTS = [
+    ("''", "''", ""), ('""', '""', ""), ("''|upper", "''|upper", ""), ("'' ~ ''", "''~''", ""), ("'a'[0:0]", "'a'[0:0]", ""),
+    ("none|default('', true)", "none|default('',true)", ""), ("[]|join", "[]|join", ""), ("''|trim", "''|trim", ""),
+    ("' '", "' '", " "), ("'  '", "'  '", "  "), ("' '|upper", "' '|upper", " "),
+    ("0", "0", "0"), ("'0'", "'0'", "0"), ("'1'", "'1'", "1"), ("1", "1", "1"), ("1 + 1", "1+1", "2"), ("' 7'", "' 7'", " 7"),
+    ("'a'", "'a'", "a"), ("'['", "'['", "["), ("'x'|upper", "'x'|upper", "X"), ("'-'", "'-'", "-"), ("'.5'", "'.5'", ".5"),
+]
+N_EMPTY_CONSTS = 8
+CONST_TABLE = [[k, t] for _, k, t in CONSTS]
+
+
 def nothing_material(rng, c):
     """a unit that yields no piece"""
     kinds = ["comment", "comment", "raw", "if-true", "if-false", "if-else", "set"]
@@ -364,9 +386,9 @@ def nothing_material(rng, c):
     return k, [("lc", rng.choice([" note", "", " {{ x }}"]))]
 
 
-SIGNS_L = {"b": ["", "-", "+"], "v": ["", "-", "+"], "c": ["", "-", "+"], "rawb": ["", "-", "+"], "rawe": ["", "-", "+"],
+SIGNS_L = {"b": ["", "-", "+"], "v": ["", "-", "+"], "k": ["", "-", "+"], "c": ["", "-", "+"], "rawb": ["", "-", "+"], "rawe": ["", "-", "+"],
            "ls": ["", "-"], "lc": ["", "-"], "t": [""]}
-SIGNS_R = {"b": ["", "-", "+"], "v": ["", "-"], "c": ["", "-", "+"], "rawb": ["", "-"], "rawe": ["", "-", "+"],
+SIGNS_R = {"b": ["", "-", "+"], "v": ["", "-"], "k": ["", "-"], "c": ["", "-", "+"], "rawb": ["", "-"], "rawe": ["", "-", "+"],
            "ls": [""], "lc": [""], "t": [""]}
 
 
@@ -383,7 +405,7 @@ def render_elem(c, el, l, r, pad):
     k, inner = el
     if k == "b":
         return f"{c['block_start_string']}{l}{pad}{inner}{pad}{r}{c['block_end_string']}"
-    if k == "v":
+    if k in ("v", "k"):
         return f"{c['variable_start_string']}{l} {inner} {r}{c['variable_end_string']}"
     if k == "c":
         return f"{c['comment_start_string']}{l}{inner}{r}{c['comment_end_string']}"
@@ -428,8 +450,22 @@ def random_template(rng, c):
             elems[at:at] = unit
             mats.append(k)
             break
+    # compile-time constant output expressions: next to an output expression (same run) or anywhere (often another run)
+    nk = rng.choice([0, 0, 1, 1, 2, 3])
+    for _ in range(nk):
+        ci = rng.randrange(N_EMPTY_CONSTS) if rng.random() < 0.55 else rng.randrange(len(CONSTS))
+        outs = [i for i, e in enumerate(elems) if e[0] in ("v", "k")]
+        if outs and rng.random() < 0.7:
+            at = rng.choice(outs) + rng.randrange(2)
+        else:
+            at = rng.randrange(len(elems) + 1)
+        if at > 0 and elems[at - 1][0] == "rawb":
+            continue
+        elems.insert(at, ("k", CONSTS[ci][0]))
+        mats.append("const-empty" if ci < N_EMPTY_CONSTS else "const")
     n = len(elems)
-    gaps = [("" if rng.random() < 0.3 else rng.choice(GAPS)) for _ in range(n + 1)]
+    tight = nk > 0 and rng.random() < 0.5
+    gaps = [("" if (tight or rng.random() < 0.3) else rng.choice(GAPS)) for _ in range(n + 1)]
     signs = [[pick_sign(rng, SIGNS_L[e[0]]), pick_sign(rng, SIGNS_R[e[0]])] for e in elems]
     if rng.random() < 0.7:
         # make every whitespace run removable: a '-' on one of the two tag sides next to it
@@ -485,6 +521,51 @@ def small_templates(c):
                         yield assemble(c, car, gaps, signs), cname, []
 
 
+def const_templates(c):
+    """every constant at every position of every small carrier (same output run), and separated from it by a statement
+    that yields nothing / a comment (another run / the same run); two adjacent constants (one merged group)"""
+    for cname in ("var", "cond", "set", "macro"):
+        car = CARRIERS[cname]
+        for ci, (src, _, _) in enumerate(CONSTS):
+            tag = "const-empty" if ci < N_EMPTY_CONSTS else "const"
+            for at in range(len(car) + 1):
+                elems = car[:at] + [("k", src)] + car[at:]
+                yield assemble(c, elems, [""] * (len(elems) + 1), [["", ""] for _ in elems]), cname, [tag]
+            for sep in (("b", "set z = 1"), ("c", " c "), ("b", "if true")):
+                unit = [sep] + ([("b", "endif")] if sep[1] == "if true" else [])
+                for elems in (car + unit + [("k", src)], [("k", src)] + unit + car):
+                    yield assemble(c, elems, [""] * (len(elems) + 1), [["", ""] for _ in elems]), cname, [tag, "sep"]
+            # whitespace between constant and carrier, removed by a sign on either side or kept
+            for w in (" ", "\n"):
+                for sr, sl in (("-", ""), ("", "-"), ("", "")):
+                    elems = car + [("k", src)]
+                    gaps = [""] * (len(elems) + 1)
+                    gaps[len(car)] = w
+                    signs = [["", ""] for _ in elems]
+                    signs[len(car) - 1][1] = sr if "-" in SIGNS_R[car[-1][0]] or not sr else ""
+                    signs[len(car)][0] = sl
+                    yield assemble(c, elems, gaps, signs), cname, [tag, "ws"]
+        for ci in (0, 2, 8, 13):
+            for cj in (0, 4, 11, 13):
+                for elems in ([("k", CONSTS[ci][0]), ("k", CONSTS[cj][0])] + car, car + [("k", CONSTS[ci][0]), ("k", CONSTS[cj][0])],
+                              [("k", CONSTS[ci][0])] + car + [("k", CONSTS[cj][0])]):
+                    yield assemble(c, elems, [""] * (len(elems) + 1), [["", ""] for _ in elems]), cname, ["const", "const"]
+    for ci, (src, _, _) in enumerate(CONSTS):
+        yield assemble(c, [("k", src)], ["", ""], [["", ""]]), "const-alone", ["const-empty" if ci < N_EMPTY_CONSTS else "const"]
+
+
+def check_const_table(jinja2, res):
+    """the documented text of every constant expression = what the ordinary string environment renders"""
+    env = jinja2.Environment()
+    for src, key, text in CONSTS:
+        got = env.from_string("{{ %s }}" % src).render()
+        if got != text:
+            raise core.HarnessError(f"C34 constant table: {{{{ {src} }}}} renders {got!r} in a string environment, table says {text!r}")
+        rep = core.driver_batch([[Atom("native-tpl"), lc.enc_cfg(lc.CONFIGS["default"]), "{{ %s }}" % src, [], [], CONST_TABLE]])[0]
+        if str(rep[0]) != "ok" or [str(x[0]) for x in rep[1]] != ["str"] or rep[1][0][1] != text:
+            raise core.HarnessError(f"C34 constant table: the template model does not find {{{{ {src} }}}} under key {key!r}: {core.sx(rep)}")
+
+
 def enc_value(vals, i):
     v = vals[i]
     return [Atom("str"), v] if isinstance(v, str) else [Atom("obj"), i, str(v)]
@@ -493,6 +574,7 @@ def enc_value(vals, i):
 def run_tpl(ctx, res, jinja2, NativeEnvironment):
     rng = ctx.rng("tpl")
     vals = tpl_values(jinja2)
+    check_const_table(jinja2, res)
     boost = 3 if (ctx.gen_changed or ctx.proof_broken or ctx.tie_broken) else 1
     n_random = ctx.pick(110, 1200) * boost
     stride = ctx.pick(9, 1)
@@ -504,6 +586,7 @@ def run_tpl(ctx, res, jinja2, NativeEnvironment):
     for cname in TPL_CONFIGS:
         c = lc.CONFIGS[cname]
         tpls = [t for k, t in enumerate(small_templates(c)) if (k + ctx.seed) % stride == 0]
+        tpls += [t for k, t in enumerate(const_templates(c)) if (k + ctx.seed) % ctx.pick(5, 1) == 0]
         tpls += [random_template(rng, c) for _ in range(n_random)]
         seen, uniq = set(), []
         for t in tpls:
@@ -519,7 +602,7 @@ def run_tpl(ctx, res, jinja2, NativeEnvironment):
                 wi = rng.randrange(len(vals))
                 cb = rng.random() < 0.7
                 reqs.append([Atom("native-tpl"), lc.enc_cfg(c), src, [["x", enc_value(vals, xi)], ["w", enc_value(vals, wi)]],
-                             [["c", cb]]])
+                             [["c", cb]], CONST_TABLE])
                 meta.append((src, car, mats, xi, wi, cb))
         replies = core.driver_batch(reqs)
         compiled = {}
@@ -529,6 +612,13 @@ def run_tpl(ctx, res, jinja2, NativeEnvironment):
                 stats["oom" if tag == "oom" else "syntax-error"] += 1
                 continue
             mpieces, mres = rep[1], rep[2]
+            if any(lit(raw)[0] != "text" for raw in rep[3]):
+                # a macro result the model took to be text is a Python literal: outside the model
+                stats["oom"] += 1
+                stats["macro_result_literal"] = stats.get("macro_result_literal", 0) + 1
+                continue
+            if rep[3]:
+                stats["macro_result_text"] = stats.get("macro_result_text", 0) + 1
             data = {"x": vals[xi], "w": vals[wi], "c": cb}
             case = {"kind": "tpl", "config": cname, "src": src, "x": xi, "w": wi, "c": cb}
             if src not in compiled:
@@ -599,9 +689,13 @@ def run_tpl(ctx, res, jinja2, NativeEnvironment):
     stats["distinct"] = len(distinct)
     stats["samples"] = samples
     stats["rule"] = (f"templates = one carrier ({', '.join(CARRIERS)}) + 0-3 units that yield nothing (comments, empty raw blocks, "
-                     "if true/endif, dead branches, set z = 1, line statements, line comments) at random positions, a whitespace run "
+                     "if true/endif, dead branches, set z = 1, line statements, line comments) at random positions, 0-3 compile-time "
+                     f"constant output expressions from {len(CONSTS)} ({N_EMPTY_CONSTS} folding to '', others to whitespace, '0', '1', 2, "
+                     "text) next to an output expression or anywhere, a whitespace run "
                      "(or none) between all tags, '-'/'+'/no sign on every tag side (70%: every run made removable), plus the "
-                     f"systematic family carrier x unit x side x whitespace run x sign pair (every {stride}th in this tier), under "
+                     f"systematic family carrier x unit x side x whitespace run x sign pair (every {stride}th in this tier) and the family "
+                     "constant x position in the carrier / separated by set, comment, if true / with whitespace and signs / two "
+                     f"constants (every {ctx.pick(5, 1)}th), under "
                      f"{len(TPL_CONFIGS)} lexer configurations, x/w from 27 values (75% from the 16 whose str() does not evaluate back to the "
                      "object); non-trivial = the Lean template model accepts it (not out-of-model / syntax error); compared: piece list of "
                      "the root render function, render, render_async, render in an async environment")
@@ -618,7 +712,7 @@ def replay(ctx, case):
     cfg = lc.CONFIGS[c["config"]]
     data = {"x": vals[c["x"]], "w": vals[c["w"]], "c": c["c"]}
     rep = core.driver_batch([[Atom("native-tpl"), lc.enc_cfg(cfg), c["src"],
-                              [["x", enc_value(vals, c["x"])], ["w", enc_value(vals, c["w"])]], [["c", c["c"]]]]])[0]
+                              [["x", enc_value(vals, c["x"])], ["w", enc_value(vals, c["w"])]], [["c", c["c"]]], CONST_TABLE]])[0]
     out = {"model": core.sx(rep), "data": repr(data)}
     try:
         t = NativeEnvironment(**cfg).from_string(c["src"])
